@@ -42,6 +42,7 @@ type ScenCase struct {
 	StructOps  []string `json:"struct_ops,omitempty"`
 	ByteOps    []string `json:"byte_ops,omitempty"`
 	MustReject string   `json:"must_reject,omitempty"` // why the description is malformed (empty = unknown)
+	Shapes     []string `json:"shapes,omitempty"`      // what the request lists of the mutated model look like (class labels only, see listShapes)
 }
 
 // ---------------------------------------------------------------------------
@@ -81,6 +82,77 @@ var badSteps = []struct {
 	{"sleep(-5)", ""},
 	{fmt.Sprintf("NAME(%d)", hugeStepCount), ""},
 	{"NAME(1,99999999999)", ""},
+}
+
+// multiplicities under which a step contributes no request at all: the documented
+// grammar name(count) takes any integer, and a count of zero or below repeats the
+// request zero times.
+var nonPositiveCounts = []int{0, -1, 0, -5, -99}
+
+// emptyStep is a step name(c) / name(c, ms) with c <= 0 for a defined request or call.
+func emptyStep(t *rapid.T, m *sg.Model, label string) sg.Step {
+	names := m.StepNames()
+	st := sg.Step{Name: "r"}
+	if len(names) > 0 {
+		st.Name = names[rapid.IntRange(0, len(names)-1).Draw(t, label+".name")]
+	}
+	c := rapid.SampledFrom(nonPositiveCounts).Draw(t, label+".count")
+	st.Count = &c
+	if rapid.IntRange(0, 3).Draw(t, label+".ms?") == 0 {
+		ms := rapid.SampledFrom([]int{0, 5, 100}).Draw(t, label+".ms")
+		st.Ms = &ms
+		st.Tight = rapid.Bool().Draw(t, label+".tight")
+	}
+	return st
+}
+
+// listShapes labels the request lists of a model: which of them hold a sleep() that
+// has no request in front of it to attach to, and how it got there. A step whose
+// text is not one of the model's own forms (a bad_step string) ends the walk.
+func listShapes(m *sg.Model) []string {
+	seen := map[string]bool{}
+	for _, s := range m.Scenarios {
+		built, emptySteps, plain := 0, 0, true
+		for i, st := range s.Steps {
+			if st.Sleep {
+				switch {
+				case built > 0:
+				case i == 0:
+					seen["sleep_first"] = true
+				default:
+					seen["sleep_after_empty_prefix"] = true // every step in front of it expands to zero requests
+				}
+				continue
+			}
+			if strings.ContainsAny(st.Name, "() ,") || st.Name == "" || st.Name == "sleep" {
+				plain = false
+				break
+			}
+			n := 1
+			if st.Count != nil {
+				n = *st.Count
+			}
+			if n <= 0 {
+				emptySteps++
+				if n < 0 {
+					seen["negative_count"] = true
+				} else {
+					seen["zero_count"] = true
+				}
+				continue
+			}
+			built += n
+		}
+		if plain && built == 0 && emptySteps > 0 {
+			seen["scenario_of_zero_requests"] = true
+		}
+	}
+	var out []string
+	for k := range seen {
+		out = append(out, k)
+	}
+	sort.Strings(out)
+	return out
 }
 
 var hostileExprs = []string{"source.users[", "source.users[]", "source.users[-1]", "source.users[9999]", "source.users[next]", "source.users[rand]", "source.users[last].id",
@@ -195,6 +267,68 @@ var structMuts = []structMut{
 		return true
 	}},
 	{"bad_step", "", nil}, // expanded in applyStruct (reject depends on the drawn step)
+	// sleep() behind steps that build no request: 1-3 steps name(c), c <= 0, then sleep(ms), in front of the list, in place
+	// of it, or in front of its tail. Not known to be malformed (the sleep is not the first item of the list), so only the
+	// universal clauses apply: no panic, no hang, bounded memory.
+	{"empty_prefix_then_sleep", "", func(t *rapid.T, m *sg.Model, _ map[string]string) bool {
+		s := pickScenario(t, m)
+		if s == nil {
+			return false
+		}
+		var front []sg.Step
+		for i, k := 0, rapid.IntRange(1, 3).Draw(t, "empty_steps"); i < k; i++ {
+			front = append(front, emptyStep(t, m, fmt.Sprintf("empty[%d]", i)))
+		}
+		ms := rapid.SampledFrom([]int{5, 0, 100, -5}).Draw(t, "ms")
+		front = append(front, sg.Step{Sleep: true, Ms: &ms})
+		switch rapid.SampledFrom([]string{"in_front", "in_front", "alone", "tail"}).Draw(t, "rest") {
+		case "in_front":
+			front = append(front, s.Steps...)
+		case "tail":
+			if len(s.Steps) > 0 {
+				front = append(front, s.Steps[rapid.IntRange(0, len(s.Steps)-1).Draw(t, "tail_from"):]...)
+			}
+		}
+		s.Steps = front
+		return true
+	}},
+	// zero / negative multiplicities on the steps the list already has: all of them, the ones in front of the list's
+	// first sleep(), or one of them
+	{"nonpositive_counts", "", func(t *rapid.T, m *sg.Model, _ map[string]string) bool {
+		s := pickScenario(t, m)
+		if s == nil {
+			return false
+		}
+		var steps []int
+		firstSleep := -1
+		for i, st := range s.Steps {
+			if st.Sleep {
+				if firstSleep < 0 {
+					firstSleep = i
+				}
+				continue
+			}
+			steps = append(steps, i)
+		}
+		if len(steps) == 0 {
+			return false
+		}
+		which := rapid.SampledFrom([]string{"before_first_sleep", "before_first_sleep", "all", "one"}).Draw(t, "which")
+		if which == "before_first_sleep" && firstSleep < 0 {
+			which = "all"
+		}
+		if which == "one" {
+			steps = []int{steps[rapid.IntRange(0, len(steps)-1).Draw(t, "step")]}
+		}
+		for _, i := range steps {
+			if which == "before_first_sleep" && i > firstSleep {
+				break
+			}
+			c := rapid.SampledFrom(nonPositiveCounts).Draw(t, fmt.Sprintf("count[%d]", i))
+			s.Steps[i].Count = &c
+		}
+		return true
+	}},
 	{"empty_requests", "", func(t *rapid.T, m *sg.Model, _ map[string]string) bool {
 		s := pickScenario(t, m)
 		if s == nil {
@@ -441,6 +575,8 @@ var scenConstantsYAML = []string{
 	"variable_sources:\n  - type: file/json\n    name: j\n    file: /c13s/empty.json\nscenarios: []\n",
 	"variable_sources:\n  - type: variables\n    name: v\n    variables:\n      a: randInt(5,5)\n      b: randString(-1)\nscenarios: []\n",
 	"calls:\n  - name: c\n    call: target.TargetService.Hello\n    payload: '{}'\nscenarios:\n  - name: s\n    requests: [\"sleep(1)\"]\n",
+	"requests:\n  - name: r\n    uri: /\n    method: GET\nscenarios:\n  - name: s\n    requests: [\"r(0)\", \"sleep(5)\", r]\n",
+	"calls:\n  - name: c\n    call: target.TargetService.Hello\n    payload: '{}'\nscenarios:\n  - name: s\n    requests: [\"c(-1, 5)\", \"c(0)\", \"sleep(1)\"]\n",
 	"scenarios:\n- 0: x", "scenarios:\n- name: s\n  7: 8\n  requests: []\n", "requests:\n- name: r\n  method: GET\n  uri: /\n  true: 1\nscenarios: []\n", "requests:\n- ? [a]\n  : b\n",
 	"variable_sources:\n- type: variables\n  name: v\n  variables: {1: 2}\nscenarios: []\n", "1: 2", "null: 1", "scenarios:\n- 1.5: x",
 	"a: &a [*a]", "a: &a\n  b: *a", "? [", "\t", "%YAML 9.9", "--- !!binary x", "scenarios: !!int x", strings.Repeat("[", 3000), strings.Repeat("a: ", 2000),
@@ -453,6 +589,8 @@ var scenConstantsHCL = []string{
 	"request \"r\" {\n  method = \"GET\"\n  uri = \"/\"\n}\nscenario \"a\" {\n  weight = -5\n  requests = [\"r\"]\n}\nscenario \"b\" {\n  requests = [\"r\"]\n}",
 	"request \"r\" {\n  method = \"GET\"\n  uri = \"$${property:x}\"\n}\nscenario \"s\" {\n  requests = [\"r\"]\n}",
 	"call \"c\" {\n  call = \"target.TargetService.Hello\"\n  payload = \"{}\"\n}\nscenario \"s\" {\n  requests = [\"sleep(1)\"]\n}",
+	"request \"r\" {\n  method = \"GET\"\n  uri = \"/\"\n}\nscenario \"s\" {\n  requests = [\"r(-1)\", \"sleep(5)\"]\n}",
+	"call \"c\" {\n  call = \"target.TargetService.Hello\"\n  payload = \"{}\"\n}\nscenario \"s\" {\n  requests = [\"c(0)\", \"sleep(1)\", \"c\"]\n}",
 	"locals {\n  a = local.a\n}", "locals {\n  a = element([], 0)\n}", "locals {\n  a = slice([1], 0, 99999999999)\n}", "locals {\n  a = nosuch()\n}", "locals {", "variable_source \"u\" \"file/csv\" {\n  file = \"/c13s/empty.csv\"\n}",
 	"variable_source \"u\" {}", "request {}", "request \"r\" {\n  uri = <<EOT\nx", "a = \"${\"", "a = \"%{\"", strings.Repeat("a {\n", 2000), strings.Repeat("[", 3000), "\xff\xfe",
 }
@@ -506,6 +644,9 @@ func genScenCase(r *vf.Run) func(t *rapid.T) ScenCase {
 				}
 			}
 		}
+		if origin == "structured" {
+			c.Shapes = listShapes(&m) // with byte mutations on top the text no longer says what the model says
+		}
 		if c.Syntax == "yaml" {
 			c.Text = sg.RenderYAML(m)
 		} else {
@@ -528,6 +669,7 @@ func genScenCase(r *vf.Run) func(t *rapid.T) ScenCase {
 				c.Text = joinLines(lines)
 				c.StructOps = append(c.StructOps, "null_list_item")
 				c.MustReject = "" // the empty item may change what the earlier mutation means (e.g. sit in front of a leading sleep())
+				c.Shapes = nil
 			}
 		}
 		if strings.HasSuffix(origin, "bytes") {
@@ -642,6 +784,9 @@ func scenBody(c ScenCase, o *vf.Obs) error {
 			continue
 		}
 		class("mut_" + op)
+	}
+	for _, sh := range c.Shapes {
+		class("list_"+sh, "list_"+sh+"_"+c.Kind)
 	}
 	for _, op := range c.ByteOps {
 		if i := strings.IndexByte(op, '='); i > 0 {
